@@ -3,7 +3,7 @@ iteration order of the str-keyed sets inside the Hopcroft-Karp search (every has
 seed), every warnings-filter state, every input representation."""
 import hashlib
 import json
-import math
+import math  # noqa: F401
 
 import numpy as np
 
@@ -75,9 +75,26 @@ def gen_case(rng, tier):
         max_n = 40 if tier == "quick" else rng.choice((40, 80, 150))
     A, B = dgmgen.gen_pair(rng, max_n)
     k = rng.randint(2, 6 if max_n <= 12 else 3)
+    # a short call history before the pair under test: other pairs evaluated first in the same process, biased to
+    # pairs of the same total size with a different split (a point moved from one diagram to the other)
+    prelude = []
+    r = rng.random()
+    if r < 0.3 and max_n <= 40:
+        fa = [p for p in A if math.isfinite(p[1])]
+        fb = [p for p in B if math.isfinite(p[1])]
+        if fa and rng.random() < 0.5:
+            j = rng.randrange(len(fa))
+            prelude.append([fa[:j] + fa[j + 1:], fb + [fa[j]]])
+        elif fb:
+            j = rng.randrange(len(fb))
+            prelude.append([fa + [fb[j]], fb[:j] + fb[j + 1:]])
+        if rng.random() < 0.3:
+            prelude.append([fb, fa])
+    elif r < 0.4 and max_n <= 40:
+        prelude.append(list(dgmgen.gen_pair(rng, min(max_n, 8), allow_inf=False)))
     return {
         "inputs": {"dgm1": A, "dgm2": B, "rep1": dgmgen.representation(rng, A),
-                   "rep2": dgmgen.representation(rng, B)},
+                   "rep2": dgmgen.representation(rng, B), "prelude": prelude},
         "config": {"set_order": "sim", "modes": [rng.choice(mc.ORDER_MODES) for _ in range(k)],
                    "warn_filter": rng.choice(mc.WARN_FILTERS), "prewarm_registry": rng.random() < 0.3},
         "ops": [],
@@ -126,6 +143,25 @@ def run_case(case, sched):
 
     vals = []
     simset.CTX.iters = simset.CTX.permuted = 0
+    # the call history before the pair under test (every evaluation is held to the same oracle)
+    n_prelude = 0
+    for pi, pq in enumerate(inp.get("prelude") or []):
+        if not (isinstance(pq, list) and len(pq) == 2):
+            raise InvalidCase("prelude")
+        dgmgen.check_diagram_json(pq[0])
+        dgmgen.check_diagram_json(pq[1])
+        P, Q = rm.finite_part(pq[0]), rm.finite_part(pq[1])
+        pref = oracle_value(P, Q)
+        if cfg.get("set_order", "sim") == "sim":
+            pv, _, _ = mc.call_bottleneck(sched, dgmgen.materialize(pq[0]), dgmgen.materialize(pq[1]), False,
+                                          (cfg.get("modes") or ["uniform"])[0], "ignore")
+        else:
+            pv, _, _ = mc.call_bottleneck_real(int((cfg.get("hashseeds") or [0])[0]), pq[0], pq[1], "f64", "f64")
+        n_prelude += 1
+        psc = max([abs(x) for p_ in list(P) + list(Q) for x in p_] + [1.0])
+        if not close(pv, pref, psc):
+            raise Violation("value==min-max-cost", "bottleneck", ("gt-ref" if pv > pref else "lt-ref") + "/history",
+                            "call #%d of the history returned %r, true min-max matching cost is %r" % (pi, pv, pref))
     if cfg.get("set_order", "sim") == "sim":
         modes = cfg.get("modes") or ["uniform"]
         if not modes:
@@ -161,9 +197,11 @@ def run_case(case, sched):
     for v, where in vals:
         if not close(v, ref, scale):
             d = "nan" if math.isnan(v) else ("gt-ref" if v > ref else "lt-ref")
-            raise Violation("value==min-max-cost", "bottleneck", d + "/" + tag,
-                            "returned %r under %s, true min-max matching cost is %r (|dgm1|=%d |dgm2|=%d finite)"
-                            % (v, where, ref, len(SA), len(TB)))
+            hist = "+after-history" if n_prelude else ""
+            raise Violation("value==min-max-cost", "bottleneck", d + "/" + tag + hist,
+                            "returned %r under %s, true min-max matching cost is %r (|dgm1|=%d |dgm2|=%d finite%s)"
+                            % (v, where, ref, len(SA), len(TB),
+                               "; %d other pair(s) were evaluated earlier in the same process" % n_prelude if n_prelude else ""))
     v0 = vals[0][0]
     for v, where in vals[1:]:
         if v != v0:
@@ -191,13 +229,19 @@ def run_case(case, sched):
         "nontrivial": len(SA) > 0 and len(TB) > 0 and len(SA) + len(TB) >= 3 and len(vals) >= 2
         and (simset.CTX.permuted > 0 or cfg.get("set_order") != "sim"),
         "probes": probes,
-        "faults": {"set_iterations_ordered": simset.CTX.iters, "non_insertion_choices": simset.CTX.permuted},
+        "faults": {"set_iterations_ordered": simset.CTX.iters, "non_insertion_choices": simset.CTX.permuted,
+                   "cases_with_call_history": int(n_prelude > 0)},
     }
 
 
 def shrink_candidates(case):
     from sim import shrink as shr
     import copy
+    pre = case["inputs"].get("prelude") or []
+    for i in range(len(pre)):
+        c = copy.deepcopy(case)
+        del c["inputs"]["prelude"][i]
+        yield c
     # fewer evaluations first, then boring modes, then the generic passes on the inputs
     cfg = case["config"]
     modes = cfg.get("modes") or []
